@@ -17,6 +17,121 @@ func init() {
 	structuralChecks["owned-writes"] = checkOwnedWrites
 	structuralChecks["owned-calls"] = checkOwnedCalls
 	structuralChecks["nonblocking"] = checkNonblocking
+	structuralChecks["no-mutable-globals"] = checkNoMutableGlobals
+	structuralChecks["mapinv-writes"] = checkMapInvWrites
+}
+
+// checkNoMutableGlobals: package-level variables of the router packages are
+// written only by package initialisers (no state shared between realms
+// through globals).
+func checkNoMutableGlobals(v *Verifier) []structResult {
+	var bad []string
+	n := 0
+	for _, fn := range v.repoFuncs() {
+		root := fn
+		for root.Parent() != nil {
+			root = root.Parent()
+		}
+		if root.Pkg == nil {
+			continue
+		}
+		pp := root.Pkg.Pkg.Path()
+		if pp != repoMod+"/router" && pp != repoMod+"/router/auth" && pp != repoMod+"/wamp" {
+			continue
+		}
+		isInit := root.Name() == "init" || strings.HasPrefix(root.Name(), "init#")
+		for _, b := range fn.Blocks {
+			for _, ins := range b.Instrs {
+				var target ssa.Value
+				switch x := ins.(type) {
+				case *ssa.Store:
+					target = x.Addr
+				case *ssa.MapUpdate:
+					target = x.Map
+				}
+				if target == nil {
+					continue
+				}
+				g := globalRoot(target, 0)
+				if g == nil || g.Pkg == nil || !strings.HasPrefix(g.Pkg.Pkg.Path(), repoMod) {
+					continue
+				}
+				n++
+				if !isInit {
+					bad = append(bad, fmt.Sprintf("%s writes package-level variable %s (%s)", funcDisplayName(fn), g.Name(), v.fset.Position(ins.Pos())))
+				}
+			}
+		}
+	}
+	res := structResult{Name: "structural#no-mutable-globals", OK: len(bad) == 0, Detail: strings.Join(bad, "; ")}
+	if res.OK {
+		res.Detail = fmt.Sprintf("%d writes to package-level variables of router/auth/wamp, all in package initialisers", n)
+	}
+	return []structResult{res}
+}
+
+// globalRoot: the package-level variable an address or map operand is rooted in.
+func globalRoot(x ssa.Value, depth int) *ssa.Global {
+	if depth > 5 {
+		return nil
+	}
+	switch y := x.(type) {
+	case *ssa.Global:
+		return y
+	case *ssa.FieldAddr:
+		return globalRoot(y.X, depth+1)
+	case *ssa.IndexAddr:
+		return globalRoot(y.X, depth+1)
+	case *ssa.UnOp:
+		return globalRoot(y.X, depth+1)
+	case *ssa.Lookup:
+		return globalRoot(y.X, depth+1)
+	}
+	return nil
+}
+
+// checkMapInvWrites: every update of a map whose type carries a declared value
+// invariant happens in a function that is verified under contract (where the
+// invariant is an obligation at the update).
+func checkMapInvWrites(v *Verifier) []structResult {
+	if len(v.db.MapInvs) == 0 {
+		return nil
+	}
+	var bad []string
+	n := 0
+	for _, fn := range v.repoFuncs() {
+		for _, b := range fn.Blocks {
+			for _, ins := range b.Instrs {
+				mu, ok := ins.(*ssa.MapUpdate)
+				if !ok {
+					continue
+				}
+				for _, mi := range v.db.MapInvs {
+					pkg := v.pkgByPath[mi.Pkg]
+					env := &SpecEnv{e: v.scratchEnc(), pkg: pkg, vars: map[string]Value{}, where: "mapinv"}
+					mt, ok := env.tryType(mi.TypeText)
+					if !ok || !types.Identical(mt, mu.Map.Type()) {
+						continue
+					}
+					n++
+					under := false
+					for f := fn; f != nil; f = f.Parent() {
+						if con := v.db.Funcs[funcKey(f)]; con != nil && !con.Trusted {
+							under = true
+						}
+					}
+					if !under {
+						bad = append(bad, fmt.Sprintf("%s updates a %s outside any function under contract (%s)", funcDisplayName(fn), mi.TypeText, v.fset.Position(ins.Pos())))
+					}
+				}
+			}
+		}
+	}
+	res := structResult{Name: "structural#mapinv-writes", OK: len(bad) == 0, Detail: strings.Join(bad, "; ")}
+	if res.OK {
+		res.Detail = fmt.Sprintf("%d updates of maps with a declared value invariant, all inside functions under contract", n)
+	}
+	return []structResult{res}
 }
 
 func (v *Verifier) repoFuncs() []*ssa.Function {
